@@ -332,7 +332,10 @@ NONFINITE = [
     ("q0**2+1", "nan"), ("q0**2+1", "nan*q0"), ("q0**2+1", "nan*q0+1"), ("q0**2+1", "q0+nan"), ("nan*q0**2+q0", "q0+1"),
     ("q0**3+nan", "q0+1"), ("[nan*q0**2+q0, q0**3+1]", "q0+1"), ("[q0**2+q0, q0**3+1]", "[nan*q0+1, q0+nan]"),
     ("inf*q0**2+1", "q0+1"), ("q0**2+1", "inf*q0+1"), ("q0**2+1", "inf"), ("q0*q1+q1**2", "nan*q1+q0"),
-    ("q0**2*q1+1", "q1+nan*q0"), ("[[q0**2, q1**2], [nan, 1]]", "[q0+1, nan*q1]"), ("-inf*q0", "inf*q0"), ("nan", "nan"),
+    ("q0**2*q1+1", "q1+nan*q0"),
+    # finite operands whose coefficient ratio overflows (seeded change C05-11): the outputs stay finite and the identity
+    # holds (checked below for entries flagged by "!")
+    ("!3e200*q0**2+2*q0", "1e-200*q0+1"), ("!1e300*q0", "1e-300*q0"), ("![3e200*q0**2, q0**2+q0]", "[1e-200*q0+1, q0]"), ("[[q0**2, q1**2], [nan, 1]]", "[q0+1, nan*q1]"), ("-inf*q0", "inf*q0"), ("nan", "nan"),
 ]
 
 
@@ -342,6 +345,8 @@ def check_nonfinite(ctx):
     q0, q1 = numpoly.variable(2)
     env = {"q0": q0, "q1": q1, "nan": numpy.nan, "inf": numpy.inf}
     for a_txt, b_txt in NONFINITE:
+        finite_inputs = a_txt.startswith("!")
+        a_txt = a_txt.lstrip("!")
         case = {"kind": "nonfinite", "dividend": a_txt, "divisor": b_txt}
         ctx.evaluations += 1
         ctx.count("nonfinite")
@@ -354,6 +359,15 @@ def check_nonfinite(ctx):
                     q, r = numpoly.poly_divmod(a, b)
             if q.shape != numpy.broadcast_shapes(a.shape, b.shape) or r.shape != q.shape:
                 ctx.fail(case, f"poly_divmod({a_txt}, {b_txt}): shapes {q.shape}, {r.shape}", ["nonfinite", "shape"])
+            elif finite_inputs:
+                with warnings.catch_warnings():
+                    warnings.simplefilter("ignore")
+                    bad = [c for p in (q, r) for c in p.coefficients if not numpy.all(numpy.isfinite(c))]
+                    back = q * b + r
+                    same = bool(numpy.all(numpoly.equal(back, a + 0 * b)))
+                if bad or not same:
+                    ctx.fail(case, f"poly_divmod({a_txt}, {b_txt}) of finite operands: q = {q}, r = {r}" + ("" if same else " (dividend != q*divisor + r)"),
+                             ["nonfinite", "overflow"])
         except CaseTimeout:
             ctx.fail(case, f"poly_divmod({a_txt}, {b_txt}) did not terminate within 10 s", ["nonfinite", "termination"])
         except Exception as err:  # noqa: BLE001
